@@ -166,6 +166,8 @@ def make_runner(c, f, mutate, sink, fixed=None, case=None):
             except PyRaise as ex:
                 values['exc'] = ex
                 matched = [(e, w, iff) for (e, w, iff) in c.raises if issubclass(ex.cls, e)]
+                # the most specific listed class speaks for the exception (EncodingError is a ValueError)
+                matched = [m_ for m_ in matched if not any(o_[0] is not m_[0] and issubclass(o_[0], m_[0]) for o_ in matched)]
                 if not matched:
                     st.oblige('raises', "unlisted %s" % ex.cls.__name__, z3.BoolVal(False)).reason = \
                         "%s(%s) %s" % (ex.cls.__name__, ", ".join(repr(a)[:60] for a in ex.eargs), ex.note)
@@ -184,8 +186,8 @@ def make_runner(c, f, mutate, sink, fixed=None, case=None):
                 gz = None
                 if name in c.guards:
                     gz = ip.zbool(eval_pre(ip, c.guards[name], values, old_heap))
-                    if z3.is_false(simp(gz)):
-                        continue
+                    if z3.is_false(simp(gz)) or not st.feasible(gz):
+                        continue      # the guard cannot hold on this path: the clause (possibly ill-typed here) says nothing
                 pv = eval_cfn(ip, ens, values, old_heap)
                 for i, cl in enumerate(clauses(pv)):
                     st.oblige('ensures', "%s.%d" % (name, i), ip.zbool(cl) if gz is None else z3.Implies(gz, ip.zbool(cl)))
@@ -670,6 +672,7 @@ def native_check(c, f, nargs, want_kind=None):
     except Exception as ex:
         obs['raised'] = "%s: %s" % (type(ex).__name__, ex)
         matched = [(e, w, o, iff) for (e, w, o, iff) in whens if isinstance(ex, e)]
+        matched = [m_ for m_ in matched if not any(o_[0] is not m_[0] and issubclass(o_[0], m_[0]) for o_ in matched)]
         if not matched:
             violated.append('raises:unlisted %s' % type(ex).__name__)
         for (e, w, o, iff) in matched:
